@@ -22,6 +22,7 @@ import (
 	"github.com/pdfcpu/pdfcpu/pkg/pdfcpu"
 	"github.com/pdfcpu/pdfcpu/pkg/pdfcpu/model"
 	"verif/core"
+	"verif/simclock"
 	"verif/pdfgen"
 )
 
@@ -109,7 +110,7 @@ func (c *simCtx) poll() {
 		if !c.firstSeen {
 			c.firstSeen = true
 			c.readsAtSeen = c.rs.calls
-			c.seenAt = time.Now()
+			c.seenAt = time.VerifRealNow()
 			if c.flipSite.Site == "" {
 				c.flipSite = here
 			}
@@ -332,6 +333,8 @@ var mapSalt uint64
 
 func doReadIO(b []byte, flipAtPoll, flipAtRead int, match *pollSite, matchIO *ioSite, reason string) (out readOutcome) {
 	runtime.VerifSetMapRand(mapSalt ^ 0xC10C10C10)
+	simclock.Install(mapSalt)
+	defer simclock.Uninstall()
 	sc := newSimCtx()
 	sc.reason = reasonOf(reason)
 	rs := &countRS{r: bytes.NewReader(b), ctx: sc, flipAtRead: flipAtRead, matchIO: matchIO, seekOcc: map[int64]int{}}
@@ -346,7 +349,7 @@ func doReadIO(b []byte, flipAtPoll, flipAtRead int, match *pollSite, matchIO *io
 		}()
 		out.ctx, out.err = pdfcpu.ReadWithContext(sc, rs, conf())
 	}()
-	end := time.Now()
+	end := time.VerifRealNow()
 	out.polls, out.calls, out.bytes = sc.polls, rs.calls, rs.bytes
 	out.seen = sc.firstSeen
 	out.flipSite = sc.flipSite
